@@ -541,7 +541,12 @@ func (e *Env) typeOK(t *Type, seen map[string]bool) bool {
 		if len(t.Args) == 0 {
 			return true // checked when the definition itself was generated
 		}
-		key := e.canonSafe(t)
+		// keyed by the reference as written (an alias and its target have the same canonical form,
+		// and both must be looked into)
+		key := t.Ns + "." + t.Name + "<"
+		for _, a := range t.Args {
+			key += e.canonSafe(a) + ","
+		}
 		if seen[key] {
 			return true
 		}
